@@ -11,6 +11,7 @@ for prop, rule in pairs:
                           "line": f"fixed: property={prop} {commit} {what} ({fid})"})
 json.dump(d, open(p, "w"), indent=1)
 p = "/verif/selftest/reverts.json"; r = json.load(open(p))
-r.append({"id": f"revert:{commit}", "commit": commit, "props": sorted({a for a, _ in pairs}), "expect": [b for _, b in pairs], "why": f"re-introduces the defect repaired by `{subj}` ({fid})"})
-json.dump(r, open(p, "w"), indent=1)
+if any(b != "-" for _, b in pairs):
+    r.append({"id": f"revert:{commit}", "commit": commit, "props": sorted({a for a, b in pairs if b != "-"}), "expect": [b for _, b in pairs if b != "-"], "why": f"re-introduces the defect repaired by `{subj}` ({fid})"})
+    json.dump(r, open(p, "w"), indent=1)
 print("recorded", fid, commit, pairs)
